@@ -173,7 +173,7 @@ package snapshot
 //@   modifies nothing
 //@ func snappy.NewReader
 //@   assumed
-//@   ensures result != nil && fresh(result) && result.over == r
+//@   ensures result != nil && fresh(result) && result.over == r && result.busy
 //@   modifies nothing
 //@ func s2.(*Writer).Flush
 //@   assumed
